@@ -102,8 +102,8 @@ class Identity:
 
     _n = 0
 
-    def __init__(self, kind="ec", cn="localhost", tamper=None):
-        der, key_pem = make_cert(kind, cn)
+    def __init__(self, kind="ec", cn="localhost", tamper=None, serial=None, extra_chain=None):
+        der, key_pem = make_cert(kind, cn, serial=serial)
         self.kind = kind + (("-" + tamper) if tamper else "")
         if tamper == "bool":
             der = tamper_bool(der)
@@ -118,6 +118,9 @@ class Identity:
         self.keyfile = base + ".key"
         with open(self.certfile, "wb") as f:
             f.write(der_to_pem(der))
+            # extra certificates the client appends to the chain it sends (the leaf stays first)
+            for extra in extra_chain or []:
+                f.write(der_to_pem(extra))
         with open(self.keyfile, "wb") as f:
             f.write(key_pem)
         self.parses = cryptography_parses(der)
@@ -126,9 +129,13 @@ class Identity:
 _cache = {}
 
 
-def identity(name: str, kind="ec", cn="localhost", tamper=None) -> Identity:
+def identity(name: str, kind="ec", cn="localhost", tamper=None, serial=None, extra_chain=None) -> Identity:
     """Process-wide cache keyed by name."""
-    k = (name, kind, cn, tamper)
+    k = (name, kind, cn, tamper, serial, tuple(extra_chain or ()))
     if k not in _cache:
-        _cache[k] = Identity(kind, cn, tamper)
+        _cache[k] = Identity(kind, cn, tamper, serial=serial, extra_chain=extra_chain)
     return _cache[k]
+
+
+def serial_of(der: bytes) -> int:
+    return x509.load_der_x509_certificate(der).serial_number
